@@ -217,11 +217,12 @@ def drv_nontrivial(recs):
     return any(r['e'] == 'Reply' for r in recs) and any(r['e'] == 'PTChange' for r in recs)
 
 
-def scen_from_behaviours(behs, seed):
+def scen_from_behaviours(behs, seed, slow_ctrl=False):
     scen = []
     for i, b in enumerate(behs):
         steps = common.acts_to_steps(b)
-        scen.append({'gpus': 2, 'frames': [0, 8, 16], 'frameChunks': 3, 'seed': seed * 1000 + i, 'steps': steps})
+        scen.append({'gpus': 2, 'frames': [0, 8, 16], 'frameChunks': 3, 'seed': seed * 1000 + i, 'slowCtrl': slow_ctrl,
+                     'steps': steps})
     return scen
 
 
@@ -268,6 +269,16 @@ def phase_mc_pmc(ctx, thorough):
     ctx.log('MC_PMC_live (Progress under fairness): %d distinct states' % r.distinct)
     if zeros:
         raise vlib.Infra('vacuity: actions never taken in MC_PMC: %s' % zeros)
+    # control-port back-pressure with requests queued behind a stalled completion
+    r = ctx.tlc_expect_ok(['pmc'], 'MC_PMC.tla', 'MC_PMC_ctrl.cfg', timeout=900, workers=w)
+    ctx.log('MC_PMC_ctrl (3 requests queued at one PMC, completions not drained): %d distinct states' % r.distinct)
+    r = ctx.tlc(['pmc'], 'MC_PMC.tla', 'MC_PMC_window.cfg', timeout=900, workers=w)
+    if 'NoStalledWindow' not in r.violated:
+        raise vlib.Infra('MC_PMC_window: the stalled-completion window is not reachable in the model (%s %s)' % (r.violated, r.error))
+    r = ctx.tlc(['pmc'], 'MC_PMC.tla', 'MC_PMC_slot.cfg', timeout=900, workers=w)
+    if not r.violated:
+        raise vlib.Infra('MC_PMC_slot: the wrong accept guard (slot instead of busy flag) is not distinguished by the model')
+    ctx.log('MC_PMC_window: stalled-completion window reachable; MC_PMC_slot (accept guard on the request slot): %s violated, as expected' % ','.join(r.violated))
     if thorough:
         for cfg in ('MC_PMC_big.cfg', 'MC_PMC_3gpu.cfg', 'MC_PMC_cap2.cfg', 'MC_PMC_ser3.cfg', 'MC_PMC_live2.cfg', 'MC_PMC_conc2.cfg'):
             r = ctx.tlc_expect_ok(['pmc'], 'MC_PMC.tla', cfg, workers=w, timeout=3000)
@@ -299,6 +310,10 @@ def phase_scen(ctx, drv, thorough, acc):
     nsim = 400 if thorough else 40
     behs, _ = ctx.simulate(['pmc'], 'PMCScen.tla', 'PMCScen.cfg', num=nsim, depth=150 if thorough else 110)
     scen = scen_from_behaviours(behs, ctx.seed)
+    # back-pressure on the completion path: all requests to one PMC, the control side takes a completion only
+    # when another one is already stalled behind it (and lets a few cycles pass first)
+    behs2, _ = ctx.simulate(['pmc'], 'PMCScen.tla', 'PMCScenCtrl.cfg', num=120 if thorough else 15, depth=130)
+    scen += scen_from_behaviours(behs2, ctx.seed + 500, slow_ctrl=True)
     sfile = os.path.join(ctx.scratch, 'scen.json')
     json.dump(scen, open(sfile, 'w'))
     t1 = os.path.join(ctx.scratch, 'trace_scen.ndjson')
